@@ -62,14 +62,22 @@ add("C08", "other",
     "call is made with which keywords, KeyError when neither key is present, the caller's mapping never mutated. Registry resolution is exhaustive "
     "by enumeration (AST-read class table vs the real from_alias) and shadowing / nested JSON round trips are bounded." + MIX, TB)
 add("C09", "other",
-    "Proved: the torch STFT functional the torch tool stores meets the same frame/walk/value specification as compute_full (see C14); both tools "
-    "use a given --seed (0 included) as the base seed. Everything else of the two script-like functions is exercised end to end by the bounded "
-    "stand-in (real entry points vs the library pipeline)." + MIX, TB)
+    "Proved at term level (processors, readers and writers are uninterpreted, so the result is compared as a composition term): the Kaldi tool's "
+    "utterance loop stores, under the utterance's own id, float32-or-double( post-processors in order, iff >= 1 frame ( compute_full( "
+    "pre-processors in order ( the requested channel )))), skips exactly the documented cases, writes every other utterance once and in input "
+    "order and returns 0 iff something was written; the torch tool's _FeatureProcessorDataset.__getitem__ (whole body) reads this utterance's path "
+    "as float64 with force_as and key, applies the documented channel rules / ValueErrors, then pre-processors, computer (or a one-column matrix), "
+    "post-processors in order and a float cast; the torch tool's resume logic removes exactly the stripped manifest lines; the torch STFT "
+    "functional meets the compute_full specification (see C14); both tools use a given --seed (0 included). The numerical equality with the "
+    "library pipeline, the three configuration syntaxes and the rest of the two script-like functions are exercised end to end by the bounded "
+    "stand-in." + MIX, TB)
 add("C10", "other",
     "Proved on statement slices of signals_to_torch_feat_dir with an effect trace (assumed torch.save / buffered-file contracts): a manifest line is "
     "written only after its file is complete, is flushed with the write, files are named dir/prefix+utt+suffix, every item once and in order; the "
-    "base seed is the given --seed; each utterance is seeded by base + its position in the FULL map before anything else. Real kills (SIGKILL / "
-    "KeyboardInterrupt at every write) and worker counts are bounded." + MIX, TB)
+    "base seed is the given --seed; each utterance is seeded by base + its position in the FULL map before anything else touches the RNG, and that "
+    "position table is built before the manifest removes anything; on resume the manifest is rewound and exactly its stripped lines are removed from "
+    "the work list (one defaulted pop per line); __getitem__ (whole body) assigns nothing on the dataset object, so the item depends on the "
+    "utterance alone (worker independence). Real kills (SIGKILL / KeyboardInterrupt at every write) and worker counts are bounded." + MIX, TB)
 add("C11", "other",
     "Proved: read_signal's dispatch for an arbitrary force_as string (exactly the documented helper, called with (source, dtype, key, **kwargs), "
     "result returned unchanged; ValueError for a stream without force_as, kaldi/table with a stream, or an undocumented force_as, before any reader "
